@@ -62,6 +62,10 @@ struct Plan {
     /// per query-type bounds: (type index as in RecSpec.rtype, bounds)
     per_type: Vec<(u8, Bounds)>,
     ops: Vec<Op>,
+    /// build the configuration the way the stub resolver does (`TtlConfig::from_opts` +
+    /// `with_query_type_ttl_bounds`) instead of through its serde form
+    #[serde(default)]
+    via_opts: bool,
 }
 
 fn rt(i: u8) -> RecordType {
@@ -172,7 +176,8 @@ impl Part for C15Part {
         }
         ops.push(Op::Get { q: r.usize_below(3) });
         let per_type = (0..r.usize_below(3)).map(|_| (r.below(5) as u8, gen_bounds(&mut r))).collect();
-        serde_json::to_value(Plan { sim, capacity: *r.pick(&[1u64, 2, 100, 100]), default: gen_bounds(&mut r), per_type, ops }).unwrap()
+        let via_opts = r.chance(1, 3);
+        serde_json::to_value(Plan { sim, capacity: *r.pick(&[1u64, 2, 100, 100]), default: gen_bounds(&mut r), per_type, ops, via_opts }).unwrap()
     }
     fn run(&self, plan: &Value, trace: bool) -> Report {
         let mut p: Plan = serde_json::from_value(plan.clone()).expect("plan");
@@ -265,11 +270,33 @@ async fn scenario(p: Plan) {
     for (t, b) in &p.per_type {
         cfgmap.insert(rt(*t).to_string(), bounds_json(b));
     }
-    let ttl_config: TtlConfig = match serde_json::from_value(Value::Object(cfgmap)) {
-        Ok(c) => c,
-        Err(e) => {
-            exec::violate("C15.harness", "", format!("ttl config: {e}"));
-            return;
+    let ttl_config: TtlConfig = if p.via_opts {
+        let mut opts = hickory_resolver::config::ResolverOpts::default();
+        opts.positive_min_ttl = p.default.pmin.map(Duration::from_secs);
+        opts.positive_max_ttl = p.default.pmax.map(Duration::from_secs);
+        opts.negative_min_ttl = p.default.nmin.map(Duration::from_secs);
+        opts.negative_max_ttl = p.default.nmax.map(Duration::from_secs);
+        let mut c = TtlConfig::from_opts(&opts);
+        for (t, b) in &p.per_type {
+            match serde_json::from_value::<hickory_resolver::TtlBounds>(bounds_json(b)) {
+                Ok(tb) => {
+                    c.with_query_type_ttl_bounds(rt(*t), tb);
+                }
+                Err(e) => {
+                    exec::violate("C15.harness", "", format!("ttl bounds: {e}"));
+                    return;
+                }
+            }
+        }
+        exec::count("probe.config_via_opts");
+        c
+    } else {
+        match serde_json::from_value(Value::Object(cfgmap)) {
+            Ok(c) => c,
+            Err(e) => {
+                exec::violate("C15.harness", "", format!("ttl config: {e}"));
+                return;
+            }
         }
     };
     let cache = ResponseCache::new(p.capacity, ttl_config);
